@@ -639,7 +639,24 @@ def absent_alike(ctx):
                         if t2['k'] == 'call':
                             out.append(strip_generics(callee_name(t2) or t2.get('decl') or '?'))
                     return sorted(out)
-                ok = tm_ == tv or doings(tm_) == doings(tv)
+                def exclusive(a, other):
+                    ra, ro = b.reachable(a) | {a}, b.reachable(other) | {other}
+                    calls, consts = [], []
+                    for r in sorted(ra - ro):
+                        if b.is_cleanup(r):
+                            continue
+                        for s2 in b.blocks[r]['stmts']:
+                            if s2['k'] == 'assign' and s2['rv']['k'] == 'use' and 'const' in s2['rv']['op']:
+                                consts.append(s2['rv']['op']['const'].get('s'))
+                        t2 = b.term(r)
+                        if t2['k'] == 'call':
+                            calls.append(strip_generics(callee_name(t2) or t2.get('decl') or '?'))
+                        elif t2['k'] == 'return':
+                            calls.append('<return>')
+                    return sorted(calls), sorted(map(str, consts))
+                # the same block, or -- for arms written out twice -- code that differs in nothing the analysis can see: the blocks only
+                # one of the two answers reaches make the same calls and assign the same constants
+                ok = tm_ == tv or (doings(tm_) == doings(tv) and exclusive(tm_, tv) == exclusive(tv, tm_))
                 fn = strip_generics(mir.enclosing_fn(b)) if b.kind == 'closure' else b.nid
                 r6.inst({'fn': fn, 'decision': mirq.site(b, bb), 'missing_and_vacant_alike': ok}, ok=ok, kind=(b.nid, bb))
                 if not ok:
